@@ -225,7 +225,7 @@ func (e *Engine) initHeap(name, sort string) string {
 			o.prefix++
 		}
 	}
-	if strings.HasPrefix(name, "called_") || strings.HasPrefix(name, "iterstopped_") || name == "lock_held" {
+	if strings.HasPrefix(name, "called_") || strings.HasPrefix(name, "iterstopped_") {
 		// ghost flags start false
 		e.vc.insertGlobal(1, "(assert (not "+c+"))")
 		for _, o := range e.vc.obls {
@@ -1717,6 +1717,17 @@ func (fr *Frame) execBlock(b *ssa.BasicBlock, st *State) {
 					e.assumeIn(st, not(eq(a.ref, "0")))
 				} else {
 					e.addObl(st, "panic.nil", fr.lbl(fr.srcOf(x, x.X.Name()+"."+stt.Field(x.Field).Name())), not(eq(a.ref, "0")), x.Pos())
+				}
+			}
+			// lock discipline: a field declared "guarded" is touched only with the lock held (objects still under
+			// construction in this function -- local allocations -- are not shared yet)
+			if a.kind == aObj && base.Addr == nil && len(e.prog.Guarded) > 0 {
+				if nt, ok := types.Unalias(a.T).(*types.Named); ok && nt.Obj().Pkg() != nil {
+					gk := strings.TrimPrefix(nt.Obj().Pkg().Path(), modPath+"/") + "." + nt.Obj().Name() + "." + stt.Field(x.Field).Name()
+					if e.prog.Guarded[gk] {
+						e.initHeap("lock_held", "Bool")
+						e.addObl(st, "guard", fr.lbl(nt.Obj().Name()+"."+stt.Field(x.Field).Name()+"_touched_with_the_lock_held"), e.heap(st, "lock_held", "Bool"), x.Pos())
+					}
 				}
 			}
 			na := *a
